@@ -541,10 +541,10 @@ func runCase(c caseT, record bool, exclude bool) error {
 	return nil
 }
 
-// watchdog limits: a listing normally takes 1-300 ms, building a history 10 ms - 3 s
+// watchdog limits: a listing normally takes 1-300 ms (a few seconds for 2000 labels on a loaded machine), building a history 10 ms - 10 s
 const (
-	listLimit  = 60 * time.Second
-	buildLimit = 180 * time.Second
+	listLimit  = 180 * time.Second
+	buildLimit = 300 * time.Second
 )
 
 // hungOnce is set when a watchdog fired: the abandoned goroutine may keep spinning, so nothing that
